@@ -202,13 +202,14 @@ def run(prog, rep):
     rep.ob("C07.2", cl, "unlink", oku, "shm_unlink (platform_key) is reached only with shm_created true" if oku else
            "shm_unlink is missing, names another key, or is not guarded by ownership", cl.loc[0])
     writers = set()
-    for f in u.functions.values():
+    for f in u.roots():                    # a static helper only ever called by the create path belongs to the create path
         for b, i, n in f.nodes():
             if n["k"] == "asg":
                 l = strip_casts(n["l"])
                 if l is not None and l["k"] == "member" and l["field"] == "shm_created" and cv(n["r"]) != 0:
-                    writers.add(f.name)
-    okw = writers == {"pp_shm_create_handle", "p_shm_take_ownership"}
+                    creator = any(c.get("callee") == "shm_open" and (cv(c["args"][1]) or 0) & 0o300 == 0o300 for (b2, i2, c) in f.calls())
+                    writers.add("the creation path" if creator else f.name)
+    okw = writers == {"the creation path", "p_shm_take_ownership"}
     rep.ob("C07.2", ch, "owner:writers", okw, "shm_created is set only by the creator path and take_ownership" if okw else "shm_created is set in %s" % sorted(writers), ch.loc[0])
     rep.floor("C07.2", 3)
 
